@@ -56,7 +56,7 @@ pub open spec fn deconv_out(i: int, k: int, s: int, p: int) -> int { (i - 1) * s
                 forall|f: int, a: int, b: int| 0 <= f < k && 0 <= a < oh && 0 <= b < ow ==> #[trigger] y@[f]@[a]@[b] == f1(g, f, kc as int, a, b, 0.0f32), //@ob tconv.inv
 //@end
 
-//@unit deconv.forward prop=C02,C08
+//@unit deconv.forward prop=C02,C08 search=deconv.forward
 impl Deconvolution {
 fn forward_nest(
     &self,
